@@ -1,4 +1,5 @@
 //! RefScheme — the executable reference for C01, C02, C05, C07 (DESIGN §4.1).
 pub mod ast;
+pub mod casefold_table;
 pub mod machine;
 pub mod value;
